@@ -6,6 +6,7 @@ import (
 	"math/rand"
 	"sort"
 	"strings"
+	"time"
 
 	"mellium.im/xmpp/history"
 	"mellium.im/xmpp/jid"
@@ -557,10 +558,23 @@ func (e *env) runAct(name string) *action {
 }
 
 // localClose is the application closing its output stream in mid-session.
+// Close runs on its own goroutine: while Serve is in the middle of a stanza
+// that it has started to answer it holds the output lock, and Close has to wait
+// for the peer to finish that stanza (or for the input to end).
 func (e *env) localClose() {
-	e.c.Guard("Session.Close", func() { e.s.Close() })
 	e.closedLocally = true
 	e.c.Count("w1_local_close_cases", 1)
+	a := e.start("session.close", "", func(ctx context.Context) (bool, error) {
+		err := e.s.Close()
+		return err == nil, err
+	})
+	select {
+	case <-a.done:
+		e.c.Count("local_close_returned_at_once", 1)
+	case <-e.serveDone:
+	case <-time.After(50 * time.Millisecond):
+		e.c.Count("local_close_waits_for_output_lock", 1)
+	}
 }
 
 // ---------------------------------------------------------------------------
